@@ -262,7 +262,16 @@ def r9_async_fn_erasure(text):
     return new, n
 
 
+def r15_static_to_const(text):
+    """R15: `static NAME: T = V;` (immutable, no interior mutability: scalar types only) -> `const NAME: T = V;`.
+    Reading an immutable scalar static and reading a const of the same value are indistinguishable."""
+    new, n = re.subn(r"^(\s*(?:pub(?:\([^)]*\))?\s+)?)static\s+(?!mut\b)([A-Z_0-9]+\s*:\s*(?:usize|u8|u16|u32|u64|u128|isize|i8|i16|i32|i64|i128|bool|char)\s*=)",
+                     r"\1const \2", text, flags=re.M)
+    return new, n
+
+
 RULES = {
+    "R15": r15_static_to_const,
     "R1": r1_strip_attrs_comments,
     "R2": r2_let_chains,
     "R3": r3_tuple_closure_params,
